@@ -786,6 +786,15 @@ func Run(cfg Config) *hx.Result {
 		}
 		runFmt(cfg, r, base, root, rp, q)
 	}
+	// ---- one client, several calls: the URL of a call is a function of the call (and the resolver's
+	// answer), not of what the same client was asked before
+	nSeq := 300
+	if cfg.Tier == "thorough" {
+		nSeq = 6000
+	}
+	for i := 0; i < nSeq; i++ {
+		runSequence(r, rng)
+	}
 	for i := 0; i < nLib; i++ {
 		if i%2 == 0 {
 			runParse(cfg, r, genRawURL(rng))
@@ -799,4 +808,56 @@ func Run(cfg Config) *hx.Result {
 		}
 	}
 	return r
+}
+
+// runSequence: 2-4 calls with different roots (one of them usually a segment of the base's context
+// path) through ONE client, each compared with the same call through a fresh client.
+func runSequence(r *hx.Result, rng *rand.Rand) {
+	rootA := pick(rng, roots)
+	base := genBase(rng, rootA)
+	b, err := url.Parse(base)
+	if err != nil {
+		return
+	}
+	shared := &restli.Client{HostnameResolver: &restli.SimpleHostnameResolver{Hostname: b}}
+	n := 2 + rng.Intn(3)
+	var trail []string
+	for i := 0; i < n; i++ {
+		root := rootA
+		if i > 0 && rng.Intn(3) != 0 {
+			root = pick(rng, roots)
+		}
+		rp := "/" + root + genTail(rng)
+		q := genQuery(rng)
+		var qe restli.QueryParamsEncoder
+		if q != nil {
+			qe = restli.QueryParamsString(*q)
+		}
+		got := ""
+		hx.Recover(func() {
+			req, err := restli.NewGetRequest(shared, context.Background(), rpath{root, rp}, qe, restli.Method_get)
+			if err != nil {
+				got = "err"
+				return
+			}
+			got = req.URL.String()
+		})
+		fresh := realBuild(base, root, rp, q)
+		want := "err"
+		if fresh.status == "ok" {
+			want = fresh.url.String()
+		} else if strings.HasPrefix(fresh.status, "panic") {
+			want = got // judged elsewhere
+		}
+		trail = append(trail, fmtOp(base, root, rp, q))
+		r.OracleCases++
+		r.Count("sequence:call-" + fmt.Sprint(i+1))
+		if i > 0 {
+			r.Distinctive(strings.Join(trail, " ; "))
+		}
+		if got != want {
+			r.OracleFail(hx.Case{Sig: "C15 the URL of a call depends on earlier calls through the same client", Op: strings.Join(trail, " ; "), Impl: got, Expected: want})
+			return
+		}
+	}
 }
